@@ -17,13 +17,30 @@ changed and kind changes.  Nothing is emitted for an entry that only sits below 
 a topologically ordered commit list; `exportGraph` gives every commit its mark, `from` and `merge` list
 (ghost and unexported parents dropped), `importGraph` maps marks back to the new revisions.
 
-T2: generated histories (the generator of C40: merges, renames, directory moves, swaps, deletions, symlinks,
-exec bits, unicode names, odd messages and committers; integral timestamps) get tags and a branch tip, are
+`renamePass` + the remaining deletes + the `M` commands are proved faithful for every pair of trees whose renamed
+entries are files/symlinks without chains (`export_import_tree_rename_partial`).  Metadata: the committer
+string is modelled character by character (`splitCommitter` = `_get_name_email`'s pattern, `formatWho` =
+`format_who_when`, `parseWho` = the parser's `([^<]*)<(.*)> (.+)` with the right-strip, `joinWho` =
+`_format_name_email`), the zone as `formatZone` / `parseZone` (sign, `//3600`, `//60 - h*60`; `sign*60*(60h+m)`),
+tags as `exportTags` (mark + `check_ref_format` filter in the plain format, `validRef` byte by byte) and
+`importTags` (`reset refs/tags/…` binds the name to the mark's revision).
+
+T2: generated histories (the generator of C40: merges, ghost parents after the first, renames, directory moves,
+swaps, deletions, symlinks, exec bits, unicode names, odd messages and committers - among them the bare
+`<email>` form; integral timestamps; zones with minutes and both signs) get tags and a branch tip, are
 exported by the real exporter in both formats (plain = the command's default: model + oracle; rich =
 --no-plain: oracle, graph correspondence and revision properties), the stream is parsed with the real parser and imported into a fresh shared repository by the real
 GenericProcessor.  Per commit the model's command list is compared with the real one (rename/delete prefix in
 order, modifications as a set), the model's `applyCmds` of the real commands on the imported first-parent
-tree with the imported tree, and the model's marks / from / merge lists with the stream.
+tree with the imported tree, the model's marks / from / merge lists with the stream, the model's
+`importAll (exportAll h)` parents with the parents of the imported revisions (`igraph`), the zone field the
+exporter wrote and the offset the parser read with `formatZone` / `parseZone`, the committer of the imported
+revision with `committerRoundtrip` (variant probed: does the importer join an empty name without the blank),
+the stream's `reset refs/tags/…` commands with `exportTags` and the imported tag table with `importTags`.
+Independently of the histories: `check_ref_format` against `validRef` on ~300 names built from the characters
+the rules mention, `_get_name_email` against `splitCommitter` and the parser's `_who_when` against `parseWho`
+on ~170 committers / committer lines built from `<`, `>`, blanks, tabs and address syntax (strings the
+pattern does not match go to `parseaddr`, which is not modelled: counted, not compared).
 
 Oracle (independent of the model): the imported repository has as many revisions as the exported branch's
 ancestry; under mark ↦ new revision id every revision has the mapped parent list (ghosts dropped), the same
@@ -39,11 +56,24 @@ keeps only the first parent; exporter emits no `M` for a renamed file whose exec
 (T2).  Harmless (stays clean): set-comprehension rewrite of deleted_paths.  Fix-reverted runs (each a plain
 VIOLATION): d152a8f (committer split), f3af31c (bytes property names of rich streams).
 
+Mutants of the improvement round (worktree with the committer patch applied; each caught): emit_tags without the
+check_ref_format filter (T2 xtags + tags, oracle "tags differ"), check_ref_format without the `..` rule (T2 xtags /
+tags; the `ref` stream when the seed draws such a name), _get_name_email splitting at the FIRST `<` (T2 split),
+importer keeps only the first parent (T2 igraph + oracle), importer drops the zone's sign (oracle, -0330 / -0500),
+exporter emits a ghost parent as `merge :1` (T2 graph + igraph, oracle parents).  Harmless (stays clean): emit_tags
+iterating the tags sorted.
+
 Families (classifiers below, all computed from the abstract history): known — export-rename-chain-or-swap,
-plain-export-directory-rename-leaves-children-behind; reported — import-new-entry-at-path-vacated-by-rename,
+plain-export-directory-rename-leaves-children-behind, import-new-entry-at-path-vacated-by-rename,
 plain-export-directory-renamed-onto-deleted-path-drops-the-delete,
-rich-import-change-below-directory-renamed-in-same-commit, import-rename-of-file-below-directory-renamed-earlier,
-rich-import-directory-rename-in-a-merge-revision.
+rich-import-change-below-directory-renamed-in-same-commit, rich-import-directory-rename-in-a-merge-revision;
+new (reported) — committer-email-only-gains-leading-blank,
+import-rename-to-path-below-own-old-path-does-not-terminate (`R sub sub/d/f`: the importer gives the directory it
+creates at `sub` the renamed file's id; CHKInventory.create_by_apply_delta then loops and allocates without bound).
+Every import therefore runs in a forked child with a CPU-time limit (30 s of CPU, not wall time) and an
+address-space limit (3 GB): a child killed by a limit is "does not terminate" (a violation with the commit it
+was processing); a wall-clock timeout without CPU exhaustion is an infrastructure error (exit 2).  Fixed and therefore plain violations if they
+return: d152a8f, f3af31c, 753774b (import-rename-of-file-below-directory-renamed-earlier).
 """
 import collections
 import hashlib
@@ -55,10 +85,13 @@ import shutil
 from vlib import env
 from checks import c40
 
-THEOREMS = ["export_import_tree_norename", "rename_swap_witness", "directory_rename_witness",
-            "import_export_graph", "import_export_iso_partial"]
-RULE = ("scenario = (seed, index): a generated history of 5-8 revisions with tags, exported from its tip in plain "
-        "format and imported into a fresh repository; case = one commit of the stream (its file commands, its "
+THEOREMS = ["committer_roundtrip_name_email", "committer_roundtrip_plain", "committer_defects_witness",
+            "export_import_tree_norename", "export_import_tree_rename_partial", "rename_swap_witness",
+            "directory_rename_witness", "import_export_graph", "import_export_iso_partial",
+            "import_export_iso_of_fine_partial", "zone_roundtrip", "zone_seconds_lost_witness", "tags_preserved"]
+RULE = ("scenario = (seed, index): a generated history of 5-8 revisions with tags, or ('m', seed, variant): the directed "
+        "merge family (mainline renames an entry, the merge re-adds its old path), exported from its tip in both "
+        "formats and imported into a fresh repository; case = one commit of the stream (its file commands, its "
         "parents, its imported tree) or the whole-history comparison; non-trivial = the commit has a rename, a "
         "deletion or >= 2 parents; distinct by canonical (old tree, new tree) / history")
 ASSUMPTIONS = [
@@ -108,6 +141,103 @@ def do_import(stream):
     return d, proc
 
 
+IMPORT_CPU_S = 30          # CPU seconds (not wall time: the machine may be loaded); a normal import needs < 2
+IMPORT_AS = 3 << 30        # bytes of address space
+IMPORT_WALL_S = 1500
+
+
+def do_import_isolated(stream, marks):
+    """the import in a forked child with a CPU-time and an address-space limit: native code that loops cannot
+    be interrupted by a Python signal handler, and a runaway import must not take the machine down.
+    -> dict(status="ok", dir=…, marks={mark: revid}) | dict(status="raised", exc=…, msg=…, log=…, last_mark=…)
+     | dict(status="killed", signal=…, last_mark=…) | dict(status="wall-timeout")"""
+    import contextlib
+    import io
+    import json
+    import resource
+    import signal
+    import time
+    from io import BytesIO
+    from fastimport import commands, parser
+    from breezy.plugins.fastimport.helpers import open_destination_directory
+    from breezy.plugins.fastimport.processors import generic_processor
+    d = env.fresh_dir("imp")
+    res_path, prog_path = d + ".res", d + ".progress"
+    pid = os.fork()
+    if pid == 0:
+        code = 0
+        try:
+            resource.setrlimit(resource.RLIMIT_CPU, (IMPORT_CPU_S, IMPORT_CPU_S + 5))
+            resource.setrlimit(resource.RLIMIT_AS, (IMPORT_AS, IMPORT_AS))
+            signal.signal(signal.SIGALRM, signal.SIG_DFL)
+            signal.alarm(0)
+            log = io.StringIO()
+            prog = open(prog_path, "w")
+
+            def cmds():
+                for c in parser.ImportParser(BytesIO(stream), verbose=False).iter_commands():
+                    if isinstance(c, commands.CommitCommand):
+                        prog.write("%s\n" % c.mark.decode())
+                        prog.flush()
+                    yield c
+            try:
+                with contextlib.redirect_stdout(log):
+                    control = open_destination_directory(d, format=None, verbose=False)
+                    params = {b"info": None, b"trees": False, b"count": -1, b"checkpoint": 10000, b"autopack": 4,
+                              b"inv-cache": -1, b"mode": "default", b"import-marks": None, b"export-marks": None}
+                    proc = generic_processor.GenericProcessor(verbose=False, bzrdir=control, params=params)
+                    proc.process(cmds)
+                got = {}
+                for m in marks:
+                    try:
+                        got[str(m)] = proc.cache_mgr.lookup_committish(b":%d" % m).decode("latin-1")
+                    except Exception:   # noqa: BLE001
+                        got[str(m)] = None
+                res = dict(status="ok", marks=got)
+            except MemoryError:
+                res = dict(status="killed", signal="MemoryError")
+            except Exception as e:   # noqa: BLE001 - reported by the parent
+                res = dict(status="raised", exc=type(e).__name__, msg=str(e)[:400], log=log.getvalue()[-2000:])
+            with open(res_path, "w") as f:
+                json.dump(res, f)
+        except BaseException:   # noqa: BLE001
+            code = 1
+        finally:
+            os._exit(code)
+    t0 = time.time()
+    status = None
+    while time.time() - t0 < IMPORT_WALL_S:
+        p, st = os.waitpid(pid, os.WNOHANG)
+        if p:
+            status = st
+            break
+        time.sleep(0.05)
+    last_mark = None
+    try:
+        last_mark = int(open(prog_path).read().split()[-1])
+    except Exception:   # noqa: BLE001
+        pass
+    for f in (prog_path,):
+        with contextlib.suppress(OSError):
+            os.unlink(f)
+    if status is None:
+        os.kill(pid, signal.SIGKILL)
+        os.waitpid(pid, 0)
+        return dict(status="wall-timeout", dir=d)
+    if os.WIFSIGNALED(status):
+        return dict(status="killed", signal=os.WTERMSIG(status), last_mark=last_mark, dir=d)
+    try:
+        res = json.load(open(res_path))
+        os.unlink(res_path)
+    except Exception:   # noqa: BLE001
+        return dict(status="killed", signal="exit %d without a result" % os.WEXITSTATUS(status), last_mark=last_mark, dir=d)
+    res["dir"] = d
+    res["last_mark"] = last_mark
+    if res.get("status") == "ok":
+        res["marks"] = {int(k): (v.encode("latin-1") if v is not None else None) for k, v in res["marks"].items()}
+    return res
+
+
 def tree_dump(tree, dirs=False):
     out = {}
     with tree.lock_read():
@@ -119,6 +249,27 @@ def tree_dump(tree, dirs=False):
             elif dirs and p:
                 out[p] = ("directory", None, False)
     return out
+
+
+_BARE = [False]
+
+
+def probe_join(ctx):
+    """does the importer write `<email>` (without the separating blank) for an empty name?  selects the model
+    variant of `_format_name_email` only; the oracle reports the changed committer itself"""
+    from breezy.branch import Branch
+    stream = b"commit refs/heads/master\nmark :1\ncommitter <x@y> 1 +0000\ndata 1\nm\n\n"
+    d, _proc = do_import(stream)
+    try:
+        b = Branch.open(os.path.join(d, "trunk"))
+        _BARE[0] = b.repository.get_revision(b.last_revision()).committer == "<x@y>"
+    finally:
+        shutil.rmtree(d, ignore_errors=True)
+    ctx.extra["importer_joins_empty_name_without_blank"] = bool(_BARE[0])
+
+
+def hx(s):
+    return s.encode("utf-8").hex() or "-"
 
 
 def _tok(x, n=7):
@@ -199,24 +350,6 @@ def classify_tree_diff(old_ents, new_ents, plain=True):
     return fams
 
 
-def classify_stale_path(by_id, rv):
-    """importer: the text of a renamed file is fetched from its last-changed revision under its CURRENT old
-    path; if a directory above it was renamed since (the file's own entry unchanged), that path does not
-    exist there (NoSuchFile).  Computed from the history: a renamed file whose entry is unchanged since an
-    ancestor revision in which it had another path."""
-    if not rv["parents"]:
-        return set()
-    p0 = rv["parents"][0]
-    old, new = entries_of(by_id[p0]["tree"]), entries_of(rv["tree"])
-    for g, e in new.items():
-        if g in old and not e[2] and e[1] != old[g][1]:
-            for a in c40._anc(by_id, p0):
-                ea = entries_of(by_id[a]["tree"]).get(g)
-                if ea is not None and ea[1] == old[g][1] and ea[3] == old[g][3] and ea[0] != old[g][0]:
-                    return {"import-rename-of-file-below-directory-renamed-earlier"}
-    return set()
-
-
 def classify_rich_import(old_ents, new_ents):
     """rich format: the importer cannot take a change below a directory that the same commit renames
     (`R a z` followed by `M z/child`: the new path is looked up in the basis inventory)"""
@@ -242,14 +375,66 @@ def git_valid_tag(name):
     return not any(c < 0o40 or c in b"\177 ~^:?*[" for c in b)
 
 
+def merge_readd_history(rng, variant):
+    """a directed family every run contains: the mainline RENAMES an entry (a -> b) while a side branch
+    keeps it at `a`; the MERGE of the side branch creates an unrelated new entry at the vacated path `a` -
+    relative to the first parent an addition, while the other parent's inventory still has the renamed entry's
+    file id at that path.  Variants (bits of `variant`): the entries live in a sub-directory; the merge also
+    renames the entry on (b -> c); the side branch modifies the entry at its old path; the new entry is a
+    file / symlink; the renamed entry is a file / symlink.  Names and contents are drawn from the seed."""
+    root = c40.ROOT_ID
+    names = rng.sample(["a", "b", "c", "d", "e", "f1", "with space", "\u00e9t\u00e9", "x-y", "n0"], 5)
+    a, b, c_, other, extra = names
+    in_dir, further, side_mod = variant & 1, variant & 2, variant & 4
+    new_kind = "symlink" if variant & 8 else "file"
+    x_kind = "symlink" if variant & 16 else "file"
+    X, O, D, N, E = b"f-1", b"f-2", b"d-3", b"f-4", b"f-5"
+    xdata = "target" if x_kind == "symlink" else c40.gen_content(rng, "guarded")
+    base = {root: (None, "", "directory", None, False)}
+    par = root
+    if in_dir:
+        base[D] = (root, rng.choice(["dir", "sub"]), "directory", None, False)
+        par = D
+    base[X] = (par, a, x_kind, xdata, False)
+    base[O] = (root, other, "file", c40.gen_content(rng, "guarded"), False)
+    t2 = dict(base)
+    t2[X] = (par, b, x_kind, xdata, False)                                    # mainline: a -> b
+    t3 = dict(base)
+    t3[O] = (root, other, "file", c40.gen_content(rng, "guarded"), True)      # side branch: the entry stays at a
+    if side_mod and x_kind == "file":
+        t3[X] = (par, a, "file", c40.mutate_content(rng, xdata, "guarded"), False)
+    t4 = dict(t2)
+    t4[O] = t3[O]
+    if side_mod and x_kind == "file":
+        t4[X] = (par, b, "file", t3[X][3], False)
+    t4[N] = (par, a, new_kind, "a/b" if new_kind == "symlink" else c40.gen_content(rng, "guarded"), False)   # merge: a NEW entry at a
+    if further:
+        t4[X] = (par, c_, t4[X][2], t4[X][3], False)                          # ... and the renamed entry moves on: b -> c
+    t5 = dict(t4)
+    t5[E] = (root, extra, "file", c40.gen_content(rng, "guarded"), False)
+    trees = [("r01", [], base, ["init"]), ("r02", ["r01"], t2, ["rename"]), ("r03", ["r01"], t3, ["modify"]),
+             ("r04", ["r02", "r03"], t4, ["merge-readd" + ("+rename" if further else "")]), ("r05", ["r04"], t5, ["add"])]
+    revs = []
+    for i, (rid, parents, tree, ops) in enumerate(trees):
+        revs.append(dict(rid=rid.encode(), parents=[p.encode() for p in parents], tree=tree, ops=ops,
+                         msg=rng.choice(c40.MESSAGES), ts=float(1500000000 + i * 1000),
+                         tz=rng.choice([0, 3600, -18000, 19800, -12600]), committer=rng.choice(c40.COMMITTERS), props={}))
+    return revs
+
+
 def build(key):
     rng = random.Random(repr(tuple(key)))
-    n = rng.randint(5, 8)
-    revs = c40.gen_history(rng, n, dict(nul="guarded", merge=0.35))
-    revs = c40._without_kind_changes(revs)
+    if key[0] == "m":
+        revs = merge_readd_history(rng, key[2])
+    else:
+        n = rng.randint(5, 8)
+        revs = c40.gen_history(rng, n, dict(nul="guarded", merge=0.35, ghost=0.15))
+        revs = c40._without_kind_changes(revs)
     for r in revs:
         r["ts"] = float(int(r["ts"]))
         r["props"] = {}
+        if rng.random() < 0.06:
+            r["committer"] = "<solo@example.com>"       # an email in angle brackets and no name
     d = env.fresh_dir("h")
     branch = c40.build_history(d, revs, "2a")
     tip = revs[-1]["rid"]
@@ -296,7 +481,7 @@ def run_scenario(args):
         raise TimeoutError("scenario %r exceeded its time limit" % (args,))
     try:
         signal.signal(signal.SIGALRM, _alarm)
-        signal.alarm(300)
+        signal.alarm(1500)
     except ValueError:
         pass
     try:
@@ -387,16 +572,43 @@ def roundtrip(sc, plain, out):
     gimpl = ";".join("%s:%s" % ((c.from_ or b"~").decode().lstrip(":"),
                                 ".".join(m.decode().lstrip(":") for m in (c.merges or [])) or "-") for c in commits) or "-"
     out["t2"].append((dict(case0, graph=True), "graph %s" % gline, gimpl))
+    cnt["ghost-parents"] += sum(1 for rid in order for p in by_id[rid]["parents"] if p not in idx)
+    # the zone field: what the exporter writes for the revision's offset, and what the parser reads back
+    zones = re.findall(rb"^committer .*> -?\d+ ([+-]\d+)$", stream, re.M)
+    zone_of = {}
+    if len(zones) == len(commits):
+        zone_of = {rid: z.decode() for z, rid in zip(zones, order)}
+        for c, z, rid in zip(commits, zones, order):
+            tz = by_id[rid]["tz"]
+            zcase = dict(case0, rev=rid.decode(), zone=tz)
+            out["t2"].append((zcase, "zone %d" % tz, z.decode()))
+            out["t2"].append((zcase, "pzone %s" % z.decode(), "%d" % c.committer[3]))
+            cnt["zone:%s" % z.decode()] += 1
+    else:
+        out["viol"].append((case0, "the %s stream has %d commits but %d committer lines with a zone" % (fmt, len(commits), len(zones)), None))
+    # tags: the reset commands of the stream against the model's emit_tags
+    tag_resets = sorted("%s:%s" % (c.ref.hex(), (c.from_ or b":0").decode().lstrip(":")) for c in cmds
+                        if isinstance(c, commands.ResetCommand) and c.ref.startswith(b"refs/tags/"))
+    tag_line = ",".join("%s:%d" % (k.encode("utf-8").hex(), idx.get(v, 0)) for k, v in sorted(sc["tags"].items())) or "-"
+    out["t2"].append((dict(case0, tags=sorted(sc["tags"])), "xtags %s %s" % (fmt, tag_line), ",".join(tag_resets) or "-"))
     # ---- import ------------------------------------------------------------------------------------
-    import contextlib
-    import io
-    log = io.StringIO()
-    try:
-        with contextlib.redirect_stdout(log):        # the processor prints "ABORT: … processing commit b':N'"
-            dd, proc = do_import(stream)
-    except Exception as e:
-        m = re.search(r"processing commit b':(\d+)'", log.getvalue())
-        rid = rid_of.get(int(m.group(1))) if m else None
+    res = do_import_isolated(stream, sorted(mark_of.values()))
+    dd = res.get("dir")
+    if res["status"] == "wall-timeout":
+        raise env.InfraError("the import of scenario %r (%s) did not finish within %d s of wall time although it used "
+                             "less than %d s of CPU: machine overloaded?" % (sc["key"], fmt, IMPORT_WALL_S, IMPORT_CPU_S))
+    if res["status"] != "ok":
+        if res["status"] == "raised":
+            m = re.search(r"processing commit b':(\d+)'", res.get("log") or "")
+            rid = rid_of.get(int(m.group(1))) if m else rid_of.get(res.get("last_mark"))
+            what_e = "raises %s" % res["exc"]
+            detail = " ".join(res["msg"].split())[:160]
+        else:
+            rid = rid_of.get(res.get("last_mark"))
+            what_e = "does not terminate (child killed: %s; limits %d s CPU, %d GB)" % (res["signal"], IMPORT_CPU_S, IMPORT_AS >> 30)
+            detail = "last commit begun: mark %s" % res.get("last_mark")
+        if dd:
+            shutil.rmtree(dd, ignore_errors=True)
         fam = None
         case = dict(case0)
         if rid is not None:
@@ -406,7 +618,6 @@ def roundtrip(sc, plain, out):
             if not plain and rv["parents"]:
                 o_, n_ = entries_of(by_id[rv["parents"][0]]["tree"]), entries_of(rv["tree"])
                 fams |= classify_rich_import(o_, n_)
-                fams |= classify_stale_path(by_id, rv)
                 if len(rv["parents"]) > 1 and any(e[2] and f in o_ and o_[f][1] != e[1] for f, e in n_.items()):
                     # a merge revision that renames a directory relative to its first parent
                     fams.add("rich-import-directory-rename-in-a-merge-revision")
@@ -414,9 +625,14 @@ def roundtrip(sc, plain, out):
             # importer does on top of it is attributed to that family (first such ancestor in export order)
             inherited = [fams_by_rid[a] for a in order if a != rid and a in c40._anc(by_id, rid) and fams_by_rid.get(a)]
             fam = sorted(inherited[0])[0] if inherited else (sorted(fams)[0] if fams else None)
-        out["viol"].append((case, "fast-import of the exported %s stream raises %s at commit %s: %s" % (
-            fmt, type(e).__name__, rid.decode() if rid else "?", " ".join(str(e).split())[:160]), fam))
-        cnt["import-raises:%s:%s" % (fmt, fam)] += 1
+        if res["status"] == "killed":
+            # a rename to a path below the entry's own old path: the importer gives the directory it creates
+            # there the renamed entry's file id; applying that inventory delta never ends
+            below = rid is not None and any(fc[0] == "R" and fc[2].startswith(fc[1] + "/") for fc in real_cmds.get(rid, []))
+            fam = "import-rename-to-path-below-own-old-path-does-not-terminate" if below else None
+        out["viol"].append((case, "fast-import of the exported %s stream %s at commit %s: %s" % (
+            fmt, what_e, rid.decode() if rid else "?", detail), fam))
+        cnt["import-%s:%s:%s" % ("raises" if res["status"] == "raised" else "killed", fmt, fam)] += 1
         return
     try:
         nb = Branch.open(os.path.join(dd, "trunk"))
@@ -431,7 +647,9 @@ def roundtrip(sc, plain, out):
         new_of = {}
         for rid, m in mark_of.items():
             try:
-                new_of[rid] = proc.cache_mgr.lookup_committish(b":%d" % m)
+                new_of[rid] = res["marks"].get(m)
+                if new_of[rid] is None:
+                    raise KeyError(m)
             except Exception:
                 new_of[rid] = None
         n_dst = len(dst_repo.all_revision_ids())
@@ -457,7 +675,14 @@ def roundtrip(sc, plain, out):
             if r1.message != r2.message:
                 out["viol"].append((case, "message of %s changed: %r -> %r" % (rid.decode(), r1.message, r2.message), None))
             if r1.committer != r2.committer:
-                out["viol"].append((case, "committer of %s changed: %r -> %r" % (rid.decode(), r1.committer, r2.committer), None))
+                fam = None
+                if re.fullmatch(r"<[^<>]+>", r1.committer) and r2.committer == " " + r1.committer:
+                    fam = "committer-email-only-gains-leading-blank"
+                out["viol"].append((case, "committer of %s changed: %r -> %r" % (rid.decode(), r1.committer, r2.committer), fam))
+                cnt["committer-changed:%s" % fam] += 1
+            # the model's committer round trip (split, `Name <email> date` line, parse, join)
+            date = "%d %s" % (int(r1.timestamp), zone_of.get(rid, "+0000"))
+            out["t2"].append((dict(case, committer=r1.committer), "who %s %s %s" % ("T" if _BARE[0] else "F", hx(r1.committer), hx(date)), hx(r2.committer)))
             if (r1.timestamp, r1.timezone) != (r2.timestamp, r2.timezone):
                 out["viol"].append((case, "timestamp/timezone of %s changed: %r -> %r" % (
                     rid.decode(), (r1.timestamp, r1.timezone), (r2.timestamp, r2.timezone)), None))
@@ -493,6 +718,19 @@ def roundtrip(sc, plain, out):
             out["viol"].append((case0, "tags differ (%s): exported %r (into the exported ancestry: %r), imported %r" % (
                 fmt, sorted(sc["tags"]), sorted(want_tags), sorted(got_tags)), None))
         cnt["tags:%d" % len(sc["tags"])] += 1
+        # the model's import of its own export: tag table and parents of the imported revisions
+        back = {v: k for k, v in new_of.items() if v is not None}
+        got_line = ",".join(sorted("%s:%d" % (k.encode("utf-8").hex(), idx.get(back.get(v), 0)) for k, v in got_tags.items())) or "-"
+        out["t2"].append((dict(case0, tags=sorted(sc["tags"]), imported=True), "tags %s %d %s" % (fmt, len(order), tag_line), got_line))
+        ig = []
+        for rid in order:
+            nr = new_of.get(rid)
+            if nr is None or not dst_repo.has_revision(nr):
+                ig = None
+                break
+            ig.append(".".join(str(idx.get(back.get(p), 0)) for p in dst_repo.get_revision(nr).parent_ids) or "-")
+        if ig is not None:
+            out["t2"].append((dict(case0, igraph=True), "igraph %s" % gline, ";".join(ig) or "-"))
         # ---- importer model lines (plain): apply the real commands to the imported first-parent tree ----
         for rid in order if plain else []:
             if rid not in dumps:
@@ -540,9 +778,87 @@ def _plain(out):
     return dict(viol=out["viol"], t2=out["t2"], count=dict(out["count"]), cases=out["cases"])
 
 
+REF_ATOMS = ["a", "b", "v1", ".", "/", "..", ".lock", "lock", "@", "{", "@{", "\\", " ", "~", "^", ":", "?", "*", "[", "\x7f", "\x1f",
+             "\u00e9", "-", "refs/tags/", "/."]
+
+
+def ref_cases(ctx, n):
+    """check_ref_format against the model's validRef: tag refs and bare names built from the characters the rules name"""
+    from breezy.plugins.fastimport.exporter import check_ref_format
+    cases, lines, impls = [], [], []
+    names = [t for t in TAGS] + ["".join(ctx.rng.choice(REF_ATOMS) for _ in range(ctx.rng.randint(1, 5))) for _ in range(n)]
+    for nm in names:
+        for ref in (b"refs/tags/" + nm.encode("utf-8"), nm.encode("utf-8")):
+            if not ref:
+                continue
+            cases.append(dict(ref=ref.hex()))
+            lines.append("ref %s" % ref.hex())
+            impls.append("T" if check_ref_format(ref) else "F")
+            ctx.count("ref-valid:%s" % impls[-1])
+    return cases, lines, impls
+
+
+WHO_ATOMS = ["Joe", "J\u00fcrgen M", "a", "b", " ", "  ", "<", ">", "<j@x>", "<>", "@", ".", ",", ":", "(c)", "\t", "x@y.z", "\"", "'"]
+
+
+def who_cases(ctx, n):
+    """the exporter's committer split and the parser's reading of the committer line against the model"""
+    from io import BytesIO
+    from fastimport import parser as fparser
+    from breezy.plugins.fastimport.exporter import BzrFastExporter
+    users = ["<joe@example.com>", "Joe  <joe@example.com>", "Joe <joe@example.com> ", "Joe <>", "a<b <c@d>", "Joe", "Joe ",
+             "joe@example.com", "Joe <j@x> (comment)", "", " ", "<", ">", "A: B <c@d>", "Doe, John <j@x>"]
+    users += ["".join(ctx.rng.choice(WHO_ATOMS) for _ in range(ctx.rng.randint(1, 5))) for _ in range(n)]
+    replies = ctx.model(["split %s" % hx(u) for u in users])
+    for u, m in zip(users, replies):
+        ctx.traces += 1
+        if m == "other":
+            ctx.count("committer-split:pattern-does-not-match(parseaddr)")
+            continue
+        name, email = BzrFastExporter._get_name_email(None, u)
+        impl = "%s|%s" % (name.hex() or "-", email.hex() or "-")
+        ctx.count("committer-split:compared")
+        ctx.case(dict(split=u), nontrivial="<" in u)
+        if impl != m:
+            ctx.mismatch(dict(split=u), impl, m, line="split %s" % hx(u))
+    # committer lines: the ones the exporter would write for these users, and free-form ones
+    lines = []
+    for u in users:
+        name, email = BzrFastExporter._get_name_email(None, u)
+        if b"\n" in name + email:
+            continue
+        lines.append((name + (b" " if name else b"") + b"<" + email + b"> 1500000000 +0530").decode("utf-8"))
+    lines += [u + " 12 -0330" for u in users if "\n" not in u]
+    replies = ctx.model(["pwho %s" % hx(l) for l in lines])
+    for l, m in zip(lines, replies):
+        ctx.traces += 1
+        p = fparser.ImportParser(BytesIO(b""), strict=True)
+        try:
+            a = p._who_when(l.encode("utf-8"), b"committer", b"x")
+            impl = "%s|%s" % (a[0].hex() or "-", (a[1] or b"").hex() or "-")
+        except Exception:   # noqa: BLE001 - the strict parser rejects the line
+            impl = "nomatch"
+        mm = "|".join(m.split("|")[:2]) if m != "nomatch" else m
+        if m != "nomatch":
+            dpart = m.split("|")[2]
+            dtxt = bytes.fromhex(dpart).decode("utf-8") if dpart != "-" else ""
+            if not re.fullmatch(r"\d+ [+-]\d{4}", dtxt):
+                # the date field is not `secs zone`: the real parser goes on to its date parsers (not modelled)
+                ctx.count("committer-line:date-field-not-raw")
+                continue
+        ctx.count("committer-line:%s" % ("parsed" if impl != "nomatch" else "rejected"))
+        if impl != mm:
+            ctx.mismatch(dict(pwho=l), impl, m, line="pwho %s" % hx(l))
+
+
 def run(ctx, nscen=None):
-    t2 = []
+    probe_join(ctx)
+    t2, viol = [], []
     keys = [((ctx.seed, i), ctx.tier) for i in range(nscen or ctx.pick(30, 120))]
+    # the directed merge family: 6 (thorough: all 32) of its variants, rotating with the seed; with and
+    # without the further rename in every run
+    nm = ctx.pick(6, 32)
+    keys += [(("m", ctx.seed, (ctx.seed * 6 + 5 * i) % 32), ctx.tier) for i in range(nm)]
     for o in ctx.pmap(run_scenario, keys, chunksize=1):
         if o.get("crash"):
             raise env.InfraError(o["crash"])
@@ -550,11 +866,16 @@ def run(ctx, nscen=None):
             ctx.case(case, nontrivial=nontrivial)
         for k, v in o["count"].items():
             ctx.count(k, v)
-        for case, what, fam in o["viol"]:
-            ctx.violation(case, what, family=fam)
+        viol.extend(o["viol"])
         t2.extend(o["t2"])
+    # violations outside every family first: run.py reports the first one that is no committed known finding
+    for case, what, fam in sorted(viol, key=lambda v: v[2] is not None):
+        ctx.violation(case, what, family=fam)
     if t2 and ctx.model_available:
         ctx.diff([c for c, _l, _i in t2], [l for _c, l, _i in t2], [i for _c, _l, i in t2])
+    if ctx.model_available:
+        ctx.diff(*ref_cases(ctx, ctx.pick(150, 1500)))
+        who_cases(ctx, ctx.pick(150, 1500))
 
 
 def widen(ctx):
@@ -562,6 +883,7 @@ def widen(ctx):
 
 
 def replay(ctx, case):
+    probe_join(ctx)
     o = run_scenario((tuple(case["scenario"]), "quick"))
     if o.get("crash"):
         return dict(case=case, crash=o["crash"])
